@@ -1068,3 +1068,27 @@ Example C05_db_sample_covered :
   snd (cq_model rv_fixed sx_db [CqInsertEdge 2 1; CqRemove (-3)]) = [Some (-4)%Z; None].
 Proof. exact sx_link_sample. Qed.
 Print Assumptions C05_db_sample_covered.
+
+(* so_covered is decidable: the boolean so_coveredb computes it (theories/StoredDbOpsLinkDec.v) *)
+From Agdb Require Import StoredDbOpsLinkDec.
+Theorem C05_db_covered_decidable :
+  forall d c, so_coveredb d c = true <-> so_covered d c.
+Proof. exact so_coveredb_iff. Qed.
+Print Assumptions C05_db_covered_decidable.
+
+(* the covered histories on the MODEL OF storage.rs (C04; file-like and memory-like back-ends; theories/
+   StoredDbOpsLinkStorage.v): from any storage state refining a record map that holds d, so_open followed by the programs
+   of the history either dies by a panic of the storage (a request beyond 2^64 bytes) or returns exec's ids in a storage
+   state refining a record map that holds the fold of exec rv_fixed.  _partial as above. *)
+From Agdb Require Import StoredDbOpsLinkStorage.
+Theorem C05_db_covered_histories_on_storage_partial :
+  forall (ops : store_ops cdata) (fl : bool), StorageProofs.kind ops fl ->
+  forall s sp root d l, Rel s sp -> stored_db (hp sp) root d -> HistoryAtomicProofs.HInv d -> so_covered_all rv_fixed d l ->
+    let r := cp_run (st_step cdata ops) (h <~ so_open root ;; cq_runs h l) s in
+    snd r = CrDead \/
+    exists sp' h' w w', Rel (fst r) sp' /\ snd r = CrOk (h', snd (cq_model rv_fixed d l)) /\
+                        stored_db_w (hp sp) root d w /\ stored_db_w (hp sp') root (fst (cq_model rv_fixed d l)) w' /\
+                        so_handles h' w' /\ HistoryAtomicProofs.HInv (fst (cq_model rv_fixed d l)) /\ sdepth sp' = sdepth sp /\
+                        frame (hp sp) (hp sp') (sd_foot root w) (sd_foot root w').
+Proof. exact so_covered_on_storage. Qed.
+Print Assumptions C05_db_covered_histories_on_storage_partial.
